@@ -127,7 +127,8 @@ func main() {
 				if tz == "UTC" {
 					add(&jobs, bConfig{TZ: tz, Topo: topo, Nodes: 2, Retry: 1, Budget: 3, MaxEntries: 2})
 				}
-			} else {
+			} else if tz == "UTC" || topo == "ss" || topo == "cc_same" {
+				// quick: all four topologies in UTC, the two cache behaviours (standalone / one cluster) in every zone
 				add(&jobs, bConfig{TZ: tz, Topo: topo, Nodes: 2, Retry: 1, Budget: nodesBudget, MaxEntries: 1})
 			}
 		}
@@ -159,7 +160,8 @@ func main() {
 	// breadth-first order means the shallow levels are complete everywhere when the deadline cuts); thorough: 14 at a time
 	par := 14
 	if !r.Thorough() {
-		par = 24
+		par = len(jobs) // all side by side
+		sort.SliceStable(jobs, func(i, j int) bool { return jobs[i].cfg.Budget > jobs[j].cfg.Budget }) // the deeper ones first
 	}
 	sem := make(chan struct{}, par)
 	runAll := func(js []job) ([]*bResult, []error) {
